@@ -290,11 +290,9 @@ impl Prop for P {
             gens::points(1..=3, gens::fl_any()),
             Just(BUDGETS.len() - 1),
         );
-        let to_case = |(dag, outs, points, budget)| Case {
-            dag,
-            outs,
-            points,
-            budget,
+        let to_case = |(dag, outs, points, budget)| {
+            let points = gens::coincide(&dag, points);
+            Case { dag, outs, points, budget }
         };
         prop_oneof![
             tier.pick(300, 100) => ordinary.prop_map(to_case),
